@@ -20,10 +20,15 @@ Qed.
 Definition is_trans (x : ev) : bool := match x with ETrans _ _ _ _ _ => true | EFire _ _ _ _ _ => true | _ => false end.
 Definition ntasks (e : eng) := length (tasks e).
 (* a message reports the state its task has at that moment, and that state is neither pending nor running *)
+(* ... and a task created through a `next` link is created when its predecessor is terminal *)
 Definition msg_ok (e : eng) (x : ev) : bool :=
-  match x with EMsg i s _ _ => is s (st e i) && negb (is s SPending) && negb (is s SRunning) | _ => true end.
+  match x with
+  | EMsg i s _ _ => is s (st e i) && negb (is s SPending) && negb (is s SRunning)
+  | ENew _ _ (Some p) _ VNext => is_completed (st e p)
+  | _ => true
+  end.
 Lemma msg_ok_st e e' x : (forall t, st e' t = st e t) -> msg_ok e' x = msg_ok e x.
-Proof. intros H. destruct x; simpl; auto. now rewrite H. Qed.
+Proof. intros H. destruct x as [? ? [p|] ? [|] | | | | | | |]; simpl; auto; now rewrite H. Qed.
 Lemma forallb_msg_ok_st e e' l : (forall t, st e' t = st e t) -> forallb (msg_ok e') l = forallb (msg_ok e) l.
 Proof. intros H. induction l as [|x l IH]; simpl; auto. now rewrite IH, (msg_ok_st e e' x H). Qed.
 Definition ext (e e' : eng) : Prop :=
@@ -105,31 +110,44 @@ Lemma ext_persist e : ext e (persist e).
 Proof. unfold persist. eapply ext_trans; [apply ext_with_rows | apply ext_with_prow]. Qed.
 
 (* ---- sched: one more task, in state none with no error ---- *)
-Lemma tk_sched e n p t : tk (sched e n p) t = if Nat.eqb t (length (tasks e)) then new_task n (Some p) else tk e t.
+Global Arguments sched_next : simpl never.
+Global Arguments sched : simpl never.
+Lemma tk_sched_v v e n p t : tk (sched_v v e n p) t = if Nat.eqb t (length (tasks e)) then new_task n (Some p) else tk e t.
 Proof.
-  unfold tk, sched; simpl.
+  unfold tk, sched_v; simpl.
   destruct (Nat.eqb_spec t (length (tasks e))) as [->|Hne].
   - rewrite app_nth2, Nat.sub_diag; auto.
   - destruct (Nat.lt_ge_cases t (length (tasks e))).
     + now rewrite app_nth1.
     + rewrite !nth_overflow; auto. rewrite app_length; simpl; lia.
 Qed.
+Lemma tk_sched e n p t : tk (sched e n p) t = if Nat.eqb t (length (tasks e)) then new_task n (Some p) else tk e t.
+Proof. apply tk_sched_v. Qed.
+Lemma ntasks_sched_v v e n p : ntasks (sched_v v e n p) = S (ntasks e).
+Proof. unfold ntasks, sched_v; simpl. rewrite app_length; simpl; lia. Qed.
 Lemma ntasks_sched e n p : ntasks (sched e n p) = S (ntasks e).
-Proof. unfold ntasks, sched; simpl. rewrite app_length; simpl; lia. Qed.
-Lemma ext_sched e n p : p < ntasks e -> ext e (sched e n p).
+Proof. apply ntasks_sched_v. Qed.
+Lemma ext_sched_v v e n p : p < ntasks e -> (v = VNext -> is_completed (st e p) = true) -> ext e (sched_v v e n p).
 Proof.
-  intros Hp. split; [|split; [|split; [|split; [|split]]]].
+  intros Hp Hv. assert (tk_sched := tk_sched_v v). assert (ntasks_sched := ntasks_sched_v v).
+  split; [|split; [|split; [|split; [|split]]]].
   - intros t. unfold st. rewrite tk_sched. destruct (Nat.eqb_spec t (length (tasks e))) as [->|]; auto.
     unfold tk. rewrite nth_overflow by lia. repeat split; reflexivity.
-  - exists [ENew (length (tasks e)) n (Some p) (clock e)]. repeat split; reflexivity.
+  - exists [ENew (length (tasks e)) n (Some p) (clock e) v]. repeat split; try reflexivity.
+    simpl. destruct v; [now rewrite Hv | reflexivity].
   - rewrite ntasks_sched; lia.
   - intros t Ht. rewrite tk_sched. unfold ntasks in Ht. destruct (Nat.eqb_spec t (length (tasks e))); [lia | reflexivity].
   - rewrite ntasks_sched. intros t H1 H2. assert (t = ntasks e) by lia. subst. exists p.
     rewrite tk_sched. unfold ntasks. rewrite Nat.eqb_refl. split; [reflexivity | exact Hp].
-  - intros j Hj. unfold sched in Hj; cbn [queue add_ev with_trace with_queue] in Hj. apply in_app_or in Hj as [Hj | [<- | []]].
+  - intros j Hj. unfold sched_v in Hj; cbn [queue add_ev with_trace with_queue] in Hj. apply in_app_or in Hj as [Hj | [<- | []]].
     + left. exact Hj.
     + right. rewrite ntasks_sched. unfold ntasks; cbn [tasks with_rows with_tasks]. lia.
 Qed.
+Lemma ext_sched e n p : p < ntasks e -> ext e (sched e n p).
+Proof. intros H. apply ext_sched_v; [exact H | discriminate]. Qed.
+Lemma ext_sched_next e n p : p < ntasks e -> is_completed (st e p) = true -> ext e (sched_next e n p).
+Proof. intros H Hc. apply ext_sched_v; auto. Qed.
+Lemma ntasks_sched_next e n p : ntasks (sched_next e n p) = S (ntasks e). Proof. apply ntasks_sched_v. Qed.
 Lemma ext_len e e' : ext e e' -> ntasks e <= ntasks e'. Proof. intros (_ & _ & L & _). exact L. Qed.
 (* every queued id denotes a task *)
 Definition QR (e : eng) : Prop := forall i, In i (queue e) -> i < ntasks e.
